@@ -489,17 +489,18 @@ Print Assumptions aptos_decode_no_escape.
 
 (* ---- Base32 / SS58 pipelines (Model/AddrText.v) instantiated with the merged codec models: unconditional ---- *)
 Notation b32 := NoEscapeAddr.b32_dec_model.
+Notation b32enc := NoEscapeAddr.b32_enc_model.     (* EncodeNoPadding, used by the canonical-form test *)
 (* AlgoAddrDecoder / XlmAddrDecoder (payload[0] unreachable IndexError) / FilSecp256k1AddrDecoder / NanoAddrDecoder /
    NimAddrDecoder *)
 Theorem algo_addr_decode_no_escape : forall (sha512_256 : list N -> list N) valid_pub addr,
-  in_family (algo_decode sha512_256 valid_pub b32 addr) = true.
+  in_family (algo_decode sha512_256 valid_pub b32enc b32 addr) = true.
 Proof. exact NoEscapeAddr.algo_addr_decode_b32. Qed.
 Print Assumptions algo_addr_decode_no_escape.
 Theorem xlm_decode_no_escape : forall valid_pub (crc16 : list N -> list N) ty addr,
   in_family (xlm_decode valid_pub crc16 b32 ty addr) = true.
 Proof. exact NoEscapeAddr.xlm_decode_b32. Qed.
 Print Assumptions xlm_decode_no_escape.
-Theorem fil_decode_no_escape : forall (blake2b : nat -> list N -> list N) addr, in_family (fil_decode blake2b b32 addr) = true.
+Theorem fil_decode_no_escape : forall (blake2b : nat -> list N -> list N) addr, in_family (fil_decode blake2b b32enc b32 addr) = true.
 Proof. exact NoEscapeAddr.fil_decode_b32. Qed.
 Print Assumptions fil_decode_no_escape.
 Theorem nano_decode_no_escape : forall (blake2b : nat -> list N -> list N) valid_pub addr,
